@@ -72,7 +72,8 @@ static jwt_value_error_t jwt_get_bool(json_t *which, jwt_value_t *jval)
 static jwt_value_error_t jwt_get_json(json_t *which, jwt_value_t *jval)
 {
 	json_t *json_val = NULL;
-	size_t flags = JSON_SORT_KEYS;
+	/* A named member can be a scalar, which is fine to dump as JSON */
+	size_t flags = JSON_SORT_KEYS | JSON_ENCODE_ANY;
 
 	if (jval->pretty)
 		flags |= JSON_INDENT(4);
